@@ -194,9 +194,19 @@ def extract(ctx, ci, fi, args_builder, prefix):
         if not atoms:
             problems.append('unconditional raise at ' + o.exc.site)
             continue
-        _attr, err = parse_condition(atoms[-1], cons, prefix)
+        before = {k: len(c.none_guard) for k, c in cons.items()}
+        attr_, err = parse_condition(atoms[-1], cons, prefix)
         if err:
             problems.append(err)
+        elif attr_ is not None:
+            # "x is not None" may have been established earlier on the path
+            # (an early continue / return) instead of in the same condition
+            c_ = cons[attr_]
+            if len(c_.none_guard) > before.get(attr_, 0) and \
+                    not c_.none_guard[-1]:
+                fs = Sym(prefix, attr_)
+                if o.state.kn.decide(T.compare('isnot', fs, None)) is True:
+                    c_.none_guard[-1] = True
     return cons, problems, outs, it
 
 
@@ -405,25 +415,22 @@ def check_class(chk, ctx, ci, q, v, want, regex_ok, site):
             lambda it, st: [ctx.symbolic_instance(it, st, ci)], 'field')
         same = set(mcons) == set(cons) and all(
             mcons[k].as_spec() == cons[k].as_spec() for k in cons)
-        # every successful return lies behind the negation of every
-        # condition: the conditions' raise outcomes come first in program
-        # order and the returns carry the negated atoms
+        # validate() is called from marshal unconditionally (no branch
+        # taken before it) and before anything is encoded
+        vcalls = [c for c in mit.calls if c[0] == v.short and
+                  len(c[1]) == 2 and c[1][0] == mm.short]
+        encs = [c for c in mit.calls if c[0].endswith('[summarised]') or
+                c[0].startswith('encode.')]
+        guarded = bool(vcalls) and all(c[3] == 0 for c in vcalls[:1]) and \
+            (not encs or min(c[2] for c in vcalls) <
+             min(c[2] for c in encs if c[2]))
         rets = [o for o in mouts if o.kind == 'return']
-        guarded = bool(rets)
-        conds = []
-        for o in mouts:
-            if o.kind == 'raise' and not o.exc.primitive and \
-                    o.exc.type_name == 'ValueError':
-                atoms = [x for x in o.state.kn.atoms if isinstance(x, Sym)]
-                if atoms:
-                    conds.append(atoms[-1])
-        for o in rets:
-            for c in conds:
-                if o.state.kn.decide(c) is not False:
-                    guarded = False
+        guarded = guarded and bool(rets)
         chk.ob('C13.M', q + ' marshal validates', same and guarded,
-               'marshal raises the validate() conditions and every return '
-               'lies behind their negation' if same and guarded else
-               'marshal refuses %r; returns guarded: %s' %
+               'marshal raises the validate() conditions; validate() is '
+               'called unconditionally before anything is encoded'
+               if same and guarded else
+               'marshal refuses %r; validate() called first and '
+               'unconditionally: %s' %
                ({k: c.as_spec() for k, c in mcons.items()}, guarded),
                site=site)
